@@ -47,6 +47,14 @@ theorem pointer_arguments_untouched :
     ("Curve.addProjectiveComplete_eu_v", ["v"]) ∈ Facts.untouched ∧ ("Curve.isEqual", ["e", "u"]) ∈ Facts.untouched ∧
     ("Curve.affine", ["e"]) ∈ Facts.untouched := by decide
 
+/-- **no API function writes through an argument**: in the footprint table re-derived from the source on every run (may-write
+analysis over the three packages, DESIGN §3.2) the only parameter through which any exported function can write caller
+memory is its receiver (or the `out` parameter of the two exported `f(out, in)` helpers) — in particular never a byte
+slice, never an `*Element`/`*Scalar` argument -/
+theorem api_arguments_never_written :
+    ∀ e ∈ Facts.apiFootprints, ∀ p ∈ e.2.2, p.2.2 = true →
+      p.1 = 0 ∧ (e.2.1 = true ∨ e.1 = "secp.Secp256Polynomial" ∨ e.1 = "secp.IsogenySecp256k13iso") := by decide
+
 -- non-vacuity: a DST of length 2 inside a 6-byte array with spare capacity 3
 example : (vetDST (fun _ => List.replicate 32 0) [[9, 1, 2, 7, 7, 7]] ⟨0, 1, 2, 5⟩).1.getD 0 [] = [9, 1, 2, 7, 7, 7] := by decide
 example : WF [[9, 1, 2, 7, 7, 7]] ⟨0, 1, 2, 5⟩ := by unfold WF; decide
